@@ -111,6 +111,12 @@ func newMachine(rt *rapid.T, o machineOpts) *machine {
 		for _, d := range m.decls {
 			if len(d.Sources) == 0 {
 				d.Sources = []refmodel.SourceRef{{Name: sources[0].Name}}
+				for _, s := range sources[1:] {
+					// (with a second source: some declarations run on both, some on the first only)
+					if rapid.Bool().Draw(rt, "customonsrc") {
+						d.Sources = append(d.Sources, refmodel.SourceRef{Name: s.Name})
+					}
+				}
 			}
 			m.label("kind=" + d.Kind())
 		}
